@@ -336,6 +336,7 @@ func (f *Frame) enterLoop(li *loopInfo) *BState {
 	}
 	st := &BState{st0.reach, heap}
 	li.hdrHeap = heap.clone()
+	preInv := len(s.facts)
 	if li.lc != nil {
 		env := f.loopEnv(li, nil)
 		f.addIterNames(env, li, heap)
@@ -349,7 +350,7 @@ func (f *Frame) enterLoop(li *loopInfo) *BState {
 		if !f.dry {
 			// vacuity guard: the invariants together with reachability must be satisfiable
 			s.addObl(&Obligation{Name: lname + ".cover", Kind: "cover", Guard: st.reach, Goal: "true", Cover: true, Pos: s.posOf(li.minPos),
-				Clause: "loop invariants are satisfiable together with the path condition (vacuity guard)"})
+				Clause: "loop invariants are satisfiable together with the path condition (vacuity guard)", PreNFacts: preInv})
 		}
 	}
 	return st
